@@ -156,6 +156,22 @@ class LinRow(AbsValue):
     def abs_getattr(self, I, name):
         if name == "shape":
             return (self.dim,)
+        if name == "any":
+            # row.any(): is some entry non-zero?  An unknown of the path; when it is False the row is the zero functional,
+            # which the contracts turn into facts at the points they use (ctx.zero_rows)
+            row = self
+
+            def any_(I2, a, k):
+                nz = I2.ctx.fresh_bool("row_nonzero")
+                r = I2.ctx.branch(nz, "row.any()")
+                if not r:
+                    zr = getattr(I2.ctx, "zero_rows", None)
+                    if zr is None:
+                        zr = I2.ctx.zero_rows = []
+                    zr.append(row)
+                return r
+
+            return NativeFn("ndarray.any", any_)
         raise Unsupported("abstract row attribute %s" % name)
 
     def abs_isinstance(self, I, c):
